@@ -68,11 +68,13 @@ def container_method(I, fn, args, kwargs):
         r = fn(*args, **kwargs)
     except Exception as ex:  # noqa: BLE001
         raise Raised(ex)
-    if isinstance(r, (list, dict, set)):
+    if isinstance(r, (list, dict, set)) and name in FRESH_RESULT:
         I.alloc(r)
     return r
 
 
+FRESH_RESULT = {"copy", "__add__", "__mul__", "__or__", "__and__", "__sub__", "union", "intersection", "difference",
+                "fromkeys", "__rmul__", "symmetric_difference"}
 I_MUTATORS = {"append", "extend", "pop", "setdefault", "update", "clear", "remove", "insert", "sort", "reverse",
               "popitem", "__setitem__", "__delitem__", "add", "discard"}
 
@@ -334,10 +336,22 @@ def table_index(I, table: str, c):
     ch = c.chars[0]
     if not I.branch(SBool(z3.Or(*[ch == ord(x) for x in table]))):
         raise Raised(ValueError("substring not found"))
-    t = z3.IntVal(len(table) - 1)
+    # runs of consecutive code points map by a constant offset: one ite per run (first occurrence wins)
+    runs = []
     seen = set()
-    for k in range(len(table) - 2, -1, -1):
-        t = z3.If(ch == ord(table[k]), k, t)
+    for k, x in enumerate(table):
+        if x in seen:
+            continue
+        seen.add(x)
+        o = ord(x)
+        if runs and runs[-1][1] == o - 1 and runs[-1][2] == o - k:
+            runs[-1][1] = o
+        else:
+            runs.append([o, o, o - k])
+    lo, hi, off = runs[-1]
+    t = ch - off
+    for lo, hi, off in runs[-2::-1]:
+        t = z3.If(z3.And(ch >= lo, ch <= hi), ch - off, t)
     return concretize(SInt(t))
 
 
